@@ -44,6 +44,9 @@ def plan(tier):
     for a, b in ((0, 0), (2, 1), (1, 2)):
         qs.append(Query('what_%d_%d' % (a, b), ['-DMODE_WHAT', '-DAL0=%d' % a, '-DAL1=%d' % b], ['exception caught with its message'], unwind=2, hardcap=24, est_gb=2, profile=prof(a + b, [(0, 99), (33, 120)]),
                         sample={'raise': 'raise(string[%d], int 0..99, string[%d], char)' % (a, b)}))
+    for a in (0, 2):
+        qs.append(Query('what_twice_%d' % a, ['-DMODE_WHAT2', '-DAL0=%d' % a], ['second exception with a number that reads differently in hexadecimal'], unwind=2, hardcap=24, est_gb=2, profile=prof(a, [(0, 255), (16, 99)]),
+                        sample={'raise': 'raise(string[%d], std::hex, int 0..255) caught, then raise(int 0..99, string[%d]) on the same thread' % (a, a)}))
 
     def b(s):
         return [ord(c) for c in s]
@@ -53,9 +56,9 @@ def plan(tier):
               (F(4, 1, (2, 1, 0)), b('{{}}') + b('xy') + b('z') + [1, 0]), (F(4, 2, (2, 1, 0)), b('{}ab') + b('xy') + b('z') + [0, 0]), (F(3, 0, (0, 0, 0)), b('a{}') + [0, 0]),
               (F(0, 0, (0, 0, 0)), [0, 0]), (F(3, 1, (2, 1, 0)), b('}{}') + b('{}') + b('q') + [0, 1]),
               (['-DMODE_INT', '-DFL=3'], b('n{}') + [42, 0]), (['-DMODE_INT', '-DFL=2'], b('{}') + [105, 1]), (['-DMODE_INT', '-DFL=2'], b('ab') + [0, 0]),
-              (['-DMODE_WHAT', '-DAL0=2', '-DAL1=1'], b('ab') + b('c') + [42, ord('!')]), (['-DMODE_WHAT', '-DAL0=0', '-DAL1=0'], [7, ord('x')])]
+              (['-DMODE_WHAT', '-DAL0=2', '-DAL1=1'], b('ab') + b('c') + [42, ord('!')]), (['-DMODE_WHAT', '-DAL0=0', '-DAL1=0'], [7, ord('x')]), (['-DMODE_WHAT2', '-DAL0=2'], b('ab') + [255, 16]), (['-DMODE_WHAT2', '-DAL0=0'], [10, 99])]
     caps = {'str': 16, 'vec': 4, 'ss': 16, 're': 4}
-    isw = lambda d: '-DMODE_WHAT' in d
+    isw = lambda d: '-DMODE_WHAT' in d or '-DMODE_WHAT2' in d
     u = Unit('format', 'harness/C08/h_c08.cpp', 'harness/C08/cb_c08.c', caps=caps, cxx_defs=['-DNITRO_VERIF_NO_MESSAGES'],
              queries=[q for q in qs if not isw(q.defs)], corpus=[c for c in corpus if not isw(c[0])])
     # the exception-message harness is built WITHOUT the message hook: message text is its subject
